@@ -1,0 +1,11 @@
+//go:build verif
+
+package jsondb
+
+// VerifStop ends the eviction goroutine of the store's status cache. It
+// exists only under the `verif` build tag: the external verification harness
+// creates thousands of store instances in one process (a real process creates
+// one) and releases them this way. Nothing else is touched.
+func (s *JSONDB) VerifStop() {
+	s.cache.Stop()
+}
